@@ -18,7 +18,7 @@ def showH : HSt → String
   | .returned sl => "ret:" ++ joinWith ";" (sl.map showRes)
   | .raised (.code e) => s!"exc:{e}"
   | .raised .cancelled => "exc:X"
-  | .abandoned => "exc:X"
+  | .exitCancelled => "exc:X"
 
 /-- canonical line: task states in submission order, free permits, helper state, tasks unfinished at the moment the helper
 returned/raised, peak number of running bodies during the step -/
